@@ -138,6 +138,9 @@ def run_history(ctx, seq):
                 o.cls = "reader-rejects"
                 return o.viol("history|rejects-own-output|%s" % type(e).__name__, "after operations %r the reader rejects the writer's output: %r" % (
                     [HIST_OPS[x] for x in seq[:step + 1]], e))
+            dirty = shapes.default_objects_dirty()
+            if dirty:
+                return o.viol("isolation|default-objects", "after operations %r: %s" % ([HIST_OPS[x] for x in seq[:step + 1]], dirty))
             if g.comments != want_comments or [shapes.view_component(c) for c in g.components] != want:
                 o.cls = "diff"
                 return o.viol("history|stale-content", "after operations %r the file read back is not the object's current content" % (
